@@ -368,7 +368,7 @@ func (t *collationSortedTree[K, V]) Search(key K) (V, bool) {
 		case nodeKind16:
 			n16 := (*node16)(n.pointer)
 
-			if idx := searchNode16(&n16.keys, n16.childrenLen, b); idx != -1 {
+			if idx := searchNode16(&n16.keys, uint8(n16.childrenLen), b); idx != -1 {
 				n = n16.children[idx]
 				depth++
 				continue
